@@ -194,6 +194,8 @@ def c19_e2e_gen(rng, tier):
         ("fail", "t", 8, 20, 150, "udp"),
         ("neg", "u", 8, 50, 100, "mixed"),
         ("neg", "t", 8, 20, 100, "tcp"),
+        ("neg", "u", 8, 20, 100, "udp"),
+        ("neg", "t", 8, 20, 100, "udp"),
         ("early", "u", 8, 50, 0, "mixed"),
     ]
     if tier == "thorough":
@@ -203,8 +205,12 @@ def c19_e2e_gen(rng, tier):
     for i, (mode, up, ttl, n, delay, ls) in enumerate(base):
         lab = bytes(rng.choice(b"abcdefghijklmnopqrstuvwxyz0123456789") for _ in range(8))
         name = gens.raw_name([b"c19x%d" % i, lab, b"test"])
-        out.append("e%d mode=%s up=%s ttl=%d n=%d delay=%d ls=%s name=%s stagger=%d" % (
-            i, mode, up, ttl, n, delay, ls, gens.hx(name), 40 * (i % 16)))
+        rc = ""
+        if mode == "neg":
+            # the error answer of the refresh: NXDOMAIN, SERVFAIL and the "other" rcodes all must leave the entry alone
+            rc = " rc=%d" % [5, 3, 4, 2, 1, 9][sum(1 for b in base[:i] if b[0] == "neg") % 6]
+        out.append("e%d mode=%s up=%s ttl=%d n=%d delay=%d ls=%s name=%s stagger=%d%s" % (
+            i, mode, up, ttl, n, delay, ls, gens.hx(name), 40 * (i % 16), rc))
     return out
 
 
